@@ -133,3 +133,42 @@ theorem model_back_lengths (ti : TableInfo) (dotsFor : Nat → Nat) (t : Table) 
   exact ⟨h.1, h.2.2.1, h.2.2.2.1, h.2.2.2.2⟩
 
 end Lou.ModelEngine
+
+namespace Lou.ModelEngine
+open Lou Lou.Gen Lou.Drv Lou.Contract
+
+/-- what the protocol operation MCALL prints IS the driver model run with the modelled engines: the theorems of this
+    file (and of CurBlind) are about exactly the function the whole-call differential compares with the code -/
+theorem callFwd_eq (t : Table) (disp : Nat → Nat) (a : Args) (r : Result) (hs : List (PassIn × PassOut))
+    (h : Engine.callFwd t disp a = .ok (r, hs)) :
+    r = fwd (some (Engine.tableInfo t)) disp (modelEngine t) a ∧ hs = (fwdRun (Engine.tableInfo t) (modelEngine t) a).hist := by
+  unfold Engine.callFwd at h
+  split at h
+  · cases h
+  · split at h
+    · cases h
+    · simp only [] at h
+      split at h
+      · cases h
+      · cases h; exact ⟨rfl, rfl⟩
+
+theorem callBack_eq (t : Table) (dotsFor : Nat → Nat) (a : Args) (r : Result) (hs : List (PassIn × PassOut))
+    (h : Engine.callBack t dotsFor a = .ok (r, hs)) :
+    r = back (some (Engine.tableInfo t)) dotsFor (modelEngineBack t) a := by
+  unfold Engine.callBack at h
+  split at h
+  · cases h
+  · simp only [] at h
+    split at h
+    · cases h
+    · cases h; rfl
+
+/-- **whole_call_fwd**: every result the whole-call model prints satisfies the length clauses of C04 — consumed and
+    produced lengths within what the caller passed -/
+theorem whole_call_fwd_lengths (t : Table) (disp : Nat → Nat) (a : Args) (r : Result) (hs : List (PassIn × PassOut))
+    (h : Engine.callFwd t disp a = .ok (r, hs)) (hret : r.ret = 1) :
+    -1 ≤ r.inlen ∧ r.inlen ≤ a.inbuf.length ∧ 0 ≤ r.outlen ∧ r.outlen ≤ a.outlen := by
+  obtain ⟨rfl, -⟩ := callFwd_eq t disp a r hs h
+  exact model_fwd_lengths (Engine.tableInfo t) disp t a hret
+
+end Lou.ModelEngine
